@@ -4,6 +4,8 @@
    exactly as gnpy/core/info.py computes them; demux / mux; element programs; Transceiver figures). *)
 From Verif Require Import Prelude Model.SI.
 From Verif Require Proofs.SI.
+From Verif Require Import Gen.SIGen.
+From Verif Require Proofs.SIGen.
 From Coq Require Import QArith Permutation.
 Open Scope Q_scope.
 
@@ -131,6 +133,47 @@ Print Assumptions C01_invb_iff.
 Theorem C01_srun_n_correct : forall ops sp, res_rel (srun_n ops sp) (srun ops sp).
 Proof. exact Proofs.SI.srun_n_correct. Qed.
 Print Assumptions C01_srun_n_correct.
+
+(* ---- second tie (translator): the definitions g_* are re-translated from gnpy/core/info.py of /repo on every run
+        (harness/pygen_c01.py -> Gen/SIGen.v); they are the model the theorems above are about, and so the
+        invariant holds of the translated source itself ---- *)
+Theorem C01_source_add_nli : forall x c, g_add_nli x c = add_nli x c.
+Proof. exact Proofs.SIGen.gen_add_nli. Qed.
+Print Assumptions C01_source_add_nli.
+Theorem C01_source_add_ase : forall x c, g_add_ase x c = add_ase x c.
+Proof. exact Proofs.SIGen.gen_add_ase. Qed.
+Print Assumptions C01_source_add_ase.
+Theorem C01_source_apply_attenuation_lin : forall k c, g_apply_attenuation_lin k c = att k c.
+Proof. exact Proofs.SIGen.gen_apply_attenuation_lin. Qed.
+Print Assumptions C01_source_apply_attenuation_lin.
+Theorem C01_source_apply_gain_lin : forall g c, g_apply_gain_lin g c = gain g c.
+Proof. exact Proofs.SIGen.gen_apply_gain_lin. Qed.
+Print Assumptions C01_source_apply_gain_lin.
+Theorem C01_source_apply_attenuation_db : forall db2lin d c, g_apply_attenuation_db db2lin d c = att (1 / db2lin d) c.
+Proof. exact Proofs.SIGen.gen_apply_attenuation_db. Qed.
+Print Assumptions C01_source_apply_attenuation_db.
+Theorem C01_source_apply_gain_db : forall db2lin d c, g_apply_gain_db db2lin d c = gain (db2lin d) c.
+Proof. exact Proofs.SIGen.gen_apply_gain_db. Qed.
+Print Assumptions C01_source_apply_gain_db.
+Theorem C01_source_signal : forall c, g_signal c = sig_pow c.
+Proof. exact Proofs.SIGen.gen_signal. Qed.
+Print Assumptions C01_source_signal.
+Theorem C01_source_ase : forall c, g_ase c = ase_pow c.
+Proof. exact Proofs.SIGen.gen_ase. Qed.
+Print Assumptions C01_source_ase.
+Theorem C01_source_nli : forall c, g_nli c = nli_pow c.
+Proof. exact Proofs.SIGen.gen_nli. Qed.
+Print Assumptions C01_source_nli.
+Theorem C01_source_is_in_band : forall lo hi c, g_is_in_band lo hi c = in_band lo hi c.
+Proof. exact Proofs.SIGen.gen_is_in_band. Qed.
+Print Assumptions C01_source_is_in_band.
+Theorem C01_source_overlap : forall l, overlapb l =
+  match l with c :: ((d :: _) as t) => g_overlap c d || overlapb t | _ => false end.
+Proof. exact Proofs.SIGen.gen_overlap. Qed.
+Print Assumptions C01_source_overlap.
+Theorem C01_source_exceed : forall l, exceedb l = existsb g_exceed l.
+Proof. exact Proofs.SIGen.gen_exceed. Qed.
+Print Assumptions C01_source_exceed.
 
 (* ---- non-vacuity ---- *)
 Definition ex_c : chan := mkC 193000000000000 50000000000 32000000000 (1#1000) 1 0 0.
